@@ -97,6 +97,10 @@ impl Core {
                         &format!("flute's receiver-side parser rejects a packet of flute's sender: {}", u),
                     );
                 }
+                if let Some(u) = &s.scrape_odd {
+                    // harness error, loud: the oracles of C02 / C16 rest on the File list of every FDT instance
+                    o.fail(&format!("{}:harness-fdt-file-list", s.sp.prop), &format!("the harness could not read the File list of an FDT instance: {}", u));
+                }
                 if let Some(u) = &s.pktlen_odd {
                     o.fail(&format!("{}:pkt-length-model", s.sp.prop), &format!("datagram lengths of an object do not follow the rule the model assumes: {}", u));
                 }
@@ -131,7 +135,7 @@ impl Core {
                     .collect::<Vec<_>>()
                     .join(" "),
             },
-            "full" | "probe" | "mask" | "mprobe" | "dup" | "join" | "jprobe" => {
+            "full" | "probe" | "mask" | "mprobe" | "dup" | "join" | "jprobe" | "fprobe" => {
                 let s = match &self.sess {
                     Some(s) => s,
                     None => return "no-session".into(),
@@ -166,15 +170,16 @@ impl Core {
                             return "bad-op".into();
                         }
                         match deadline(s, off) {
-                            None => return if cmd == "jprobe" { "done".into() } else { "short".into() },
+                            None => return if cmd == "jprobe" || cmd == "fprobe" { "done".into() } else { "short".into() },
                             Some(d) => (off..d).collect(),
                         }
                     }
                 };
-                let rx = run_rx(s, &sel);
+                // `fprobe`: a late join with a one-shot storage fault (the first open() of every TOI answers Err)
+                let rx = run_rx(s, &sel, cmd == "fprobe");
                 // `probe`: the run is judged by the oracle only (inputs in the region of a defect whose
                 // effect depends on third-party library internals: D15 inflate hang, D18 garbage inflate)
-                let obs = if cmd == "probe" || cmd == "jprobe" || cmd == "mprobe" { "done".to_string() } else { observe(s, &rx) };
+                let obs = if cmd == "probe" || cmd == "jprobe" || cmd == "mprobe" || cmd == "fprobe" { "done".to_string() } else { observe(s, &rx) };
                 if let Some(p) = &rx.panic {
                     o.fail(&format!("{}:receiver-panic", s.sp.prop), &format!("receiver panics at {}", p));
                     return obs;
@@ -187,8 +192,8 @@ impl Core {
                     }
                     "C02" => self.oracle_c02(s, &rx, &sel, o),
                     "C16" => {
-                        if cmd == "join" || cmd == "jprobe" {
-                            self.oracle_c16(s, &rx, o)
+                        if cmd == "join" || cmd == "jprobe" || cmd == "fprobe" {
+                            self.oracle_c16(s, &rx, &sel, o)
                         }
                     }
                     _ => {}
@@ -228,8 +233,10 @@ impl Core {
     fn raptor_lt4_explains(&self, s: &Session, oi: &ObjInfo) -> bool {
         // (since /repo 6808824 a source whose FIRST block cannot be encoded sends nothing at all: a session whose
         // default OTI is Raptor and that never emitted a single FDT packet)
-        self.obj_truncated(s, oi)
-            || (!s.fdts.is_empty() && s.fdts.iter().all(|f| self.fdt_truncated(s, f)))
+        // (the object half - a 2-3-symbol block of the object itself - is repaired: add_object refuses such objects
+        // since /repo 42b2a1c; if that regressed the failure is a violation, not this class)
+        let _ = oi;
+        (!s.fdts.is_empty() && s.fdts.iter().all(|f| self.fdt_truncated(s, f)))
             || (s.sp.oti.sch == Scheme::Raptor && !s.stream.iter().any(|d| d.toi == 0))
     }
 
@@ -237,8 +244,7 @@ impl Core {
         // finding D26: creation of a FIRST block of 2 or 3 Raptor symbols fails and `read` hits the
         // debug_assert of blockencoder.rs; any other panic (other location, other input) is new
         let first_lt4 = |oti: &OtiP, tl: u64| oti.sch == Scheme::Raptor && ks_of(oti, tl).first().map(|k| *k == 2 || *k == 3).unwrap_or(false);
-        let input = s.objs.iter().any(|oi| oi.toi.is_some() && first_lt4(&oi.oti, oi.tl.unwrap_or(0)))
-            || s.fdts.iter().any(|f| first_lt4(&s.sp.oti, f.len))
+        let input = s.fdts.iter().any(|f| first_lt4(&s.sp.oti, f.len))
             || (s.sp.oti.sch == Scheme::Raptor && s.fdts.is_empty());
         let cls = if p.contains("blockencoder.rs") && input && s.sp.prop == "C01" {
             "C01:raptor-block-lt4".to_string()
@@ -419,7 +425,15 @@ impl Core {
                         || (!s.sp.full && (oi.p.m > 1 || oi.p.car != Car::None))
                         || self.raptor_lt4_explains(s, oi))
             });
-            if !excused {
+            // C01 speaks of copies, not of return values: an `Err` is reported only when it goes with an object that
+            // was not delivered exactly as often as it should (otherwise it is counted, see `push_err`)
+            let all_exact = s.objs.iter().filter(|oi| oi.toi.is_some()).all(|oi| {
+                let nc: usize = rx.recs.iter().filter(|r| Some(r.toi) == oi.toi).map(|r| count(r, 'c')).sum();
+                let carousel = oi.p.car != Car::None;
+                let want = if s.sp.ro || carousel { 1 } else { (oi.p.m as usize).max(1) };
+                if carousel && !s.sp.ro { nc >= 1 } else { nc == want }
+            });
+            if !excused && !all_exact {
                 o.fail("C01:push-error", &format!("Receiver::push_data answered Err {} times on a clean channel", rx.push_err));
             }
         }
@@ -639,7 +653,7 @@ impl Core {
                 "C02:D3-close-flag-early"
             } else if first_b.is_some() && fpos.unwrap() > first_b.unwrap() {
                 "C02:fdt-after-close"
-            } else if self.held_before_fdt_exceeds_cache(s, oi, sel, fpos.unwrap()) {
+            } else if self.block_bytes(oi).iter().sum::<u128>() > self.cache_bytes(s) && self.held_before_fdt_exceeds_cache(s, oi, sel, fpos.unwrap()) {
                 "C02:object-larger-than-cache-before-fdt"
             } else {
                 "C02:not-delivered"
@@ -662,7 +676,7 @@ impl Core {
         }
     }
 
-    fn oracle_c16(&self, s: &Session, rx: &RxResult, o: &mut Oracle) {
+    fn oracle_c16(&self, s: &Session, rx: &RxResult, sel: &[usize], o: &mut Oracle) {
         for oi in &s.objs {
             let toi = match oi.toi {
                 Some(t) => t,
@@ -687,7 +701,21 @@ impl Core {
                     .iter()
                     .filter(|r| r.toi == toi)
                     .all(|r| matches!(r.calls.borrow().iter().filter(|c| **c != 'w').collect::<String>().as_str(), "o" | "oe"));
-                let cls = if total > self.cache_bytes(s) && only_oe { "C16:object-larger-than-cache" } else { "C16:not-delivered" };
+                // ... and the join fell INSIDE the object: the first packet of the TOI that was fed is not the start of a
+                // transfer, or packets of the TOI were fed before an FDT instance listing it was complete
+                let first = sel.iter().map(|&i| &s.stream[i]).find(|d| d.toi == toi);
+                let mid_transfer = first.map(|d| !(d.sbn == 0 && d.esi == 0)).unwrap_or(false);
+                let first_pos = sel.iter().position(|&i| s.stream[i].toi == toi);
+                let before_fdt = match (self.fdt_complete_pos(s, sel, toi), first_pos) {
+                    (Some(f), Some(p)) => p < f,
+                    (None, Some(_)) => true,
+                    _ => false,
+                };
+                let cls = if total > self.cache_bytes(s) && only_oe && (mid_transfer || before_fdt) {
+                    "C16:object-larger-than-cache"
+                } else {
+                    "C16:not-delivered"
+                };
                 o.fail(
                     cls,
                     &format!(
